@@ -7,13 +7,14 @@ Import ListNotations.
 (** what stays fixed along a history: the bech32 decoder, module addresses, the DID crypto oracles *)
 Record oracles := {
   o_unbech : bytes -> option bytes;
+  o_bech : bytes -> bytes;
   o_fee_collector : bytes;
   o_blocked : list bytes;
   o_b58key : bytes -> option bytes;
   o_verify : bytes -> bytes -> bytes -> bool }.
 
 Definition env_at (o : oracles) (now : Z) : env :=
-  {| e_unbech := o_unbech o; e_now := now; e_fee_collector := o_fee_collector o; e_blocked := o_blocked o;
+  {| e_unbech := o_unbech o; e_now := now; e_fee_collector := o_fee_collector o; e_blocked := o_blocked o; e_bech := o_bech o;
      e_b58key := o_b58key o; e_verify := o_verify o |}.
 
 (** a block: its header time and its transactions *)
